@@ -604,6 +604,32 @@ fn gen_component(rng: &mut Rng, sw: &Swarm, index: usize) -> Component {
     }
 }
 
+/// A component whose definitions refer to the definitions of an already
+/// delivered component `base` (and to each other).
+fn gen_extension(rng: &mut Rng, sw: &Swarm, base: &Component, index: usize) -> Component {
+    let prefix = format!("K{}", (b'a' + (index as u8 % 20)) as char).replace("Ka", "Kx");
+    let prefix = if prefix.len() == 2 { format!("X{}", &prefix[1..]) } else { prefix };
+    let n = rng.range(1, 3);
+    let mut words: Vec<&str> = WORDS.to_vec();
+    rng.shuffle(&mut words);
+    words.truncate(n);
+    let names: Vec<String> = words.iter().map(|w| format!("{prefix}{w}")).collect();
+    let base_names: Vec<String> = base.defs.iter().map(|d| d.0.clone()).collect();
+    let mut defs: BTreeMap<String, Value> = BTreeMap::new();
+    let mut cx = Ctx { sw, targets: Vec::new(), ref_weight: 6, titles: 500, prefix: prefix.clone() };
+    for (i, name) in names.iter().enumerate() {
+        let mut t = base_names.clone();
+        t.extend(names[..i].iter().cloned());
+        if sw.cycles > 0 {
+            t.push(name.clone());
+        }
+        cx.targets = t;
+        let d = gen_definition(rng, &mut cx);
+        defs.insert(name.clone(), d);
+    }
+    Component { prefix, defs: defs.into_iter().collect() }
+}
+
 /// Attach `default` annotations to optional properties (and sometimes to the
 /// definition itself). Valid or invalid per swarm setting; the model decides
 /// validity independently at execution time.
@@ -1139,6 +1165,28 @@ pub fn generate(seed: u64, focus: Focus, faults: bool) -> RunDesc {
             break;
         }
     }
+    // ----- an overlapping delivery -----
+    // A later call that carries definitions which were already added (unchanged)
+    // TOGETHER with new definitions that refer to them: the collection is
+    // self-contained as the API demands, the old definitions are recognised,
+    // the new ones hang on to their existing ids (by value, optional, array ...).
+    let mut overlap: Option<(Vec<(String, Value)>, Vec<(String, Value)>)> = None;
+    if sw.relation.is_none() && !comps.is_empty() && rng.chance(1, 3) {
+        let delivered: Vec<&Component> = comps.iter().filter(|c| c.defs.iter().all(|d| added.contains(&d.0))).collect();
+        if !delivered.is_empty() {
+            let base = *rng.pick(&delivered);
+            let ext = gen_extension(rng, &sw, base, comps.len());
+            let mut defs = base.defs.clone();
+            defs.extend(ext.defs.clone());
+            ops.push(Op::AddRefTypes { defs, poison: None });
+            overlap = Some((base.defs.clone(), ext.defs.clone()));
+            for (n, d) in &ext.defs {
+                added.push(n.clone());
+                defs_model.insert(n.clone(), d.clone());
+            }
+        }
+    }
+    let _ = &overlap;
     ops.push(Op::Inspect);
     ops.push(Op::Render);
 
